@@ -10,6 +10,7 @@ import Lemmas.LogTree
 import Lemmas.LogNestErrs
 import Lemmas.LogFanoutAny
 import Lemmas.TraceBuf
+import Lemmas.LogFanoutLive
 /-! # C13 — log handlers deliver each record whole, once, to every sink
 
 Property theorems only.  The definitions (`TL.render`, `TL.deliver`, `TL.withGroup`, `TL.withAttrs`, `TL.Buf.*`,
@@ -601,6 +602,70 @@ theorem fanout_buffered_sink_whole_once_or_dropped (σ : Store) (ss : ML.Sinks) 
   obtain ⟨h1, h2, h3⟩ := fanout_any_sinks_per_sink σ ss m r k
   obtain ⟨i1, acc, hsub, i3⟩ := ML.seqDeliver_buffered k (ML.linesFor σ r k m.children) (ML.getSink ss k) b hb
   exact ⟨by rw [h3, i1], acc, hsub, by rw [h1, h2, i3]⟩
+
+/-- the scheduler hypothesis of the "eventually" half, named: after `Handle` has returned, the delivery goroutine of the
+    buffered sink keeps being scheduled and its `Write` calls return, i.e. it runs its loop `finish; take`
+    (`TL.Buf.settle`, which is the protocol's `finish`/`recv` steps by `buffer_model_is_abstraction_of_protocol`) until the
+    channel is empty — `queue.length + 1` rounds; `written` is what the sink receives in those rounds and `rest` the channel
+    afterwards.  Nothing in the Go code guarantees this (a `Write` that never returns stalls the goroutine for ever):
+    it is an assumption about the scheduler and the sink, as the fairness predicates of C16 are. -/
+def DeliveryGoroutineRuns (b : Buf) (written : List Bytes) (rest : Buf) : Prop :=
+  (TL.Buf.settle (b.queue.length + 1) b) = (rest, written)
+
+/-- "deliver each record whole, once, to every sink", for a fan-out `Handle` over ANY MIX of synchronous and buffered
+    children, sink by sink (`k`; `ML.linesFor` = the renderings of the enabled children that write to `k`, in child order).
+    * `k` SYNCHRONOUS: when `Handle` returns, `k` has received exactly those renderings — one whole `Write` per enabled
+      child, in order, none for a disabled child — and its state is what it was.
+    * `k` BUFFERED: every delivery to `k` returned nil (the caller never waits); there is a sublist `acc` of those
+      renderings — each whole, in order, none twice, nothing that was not handed over: the records that found room in the
+      channel; the others met a full channel at their `select` (`ML.deliver_buffered`) and are in NO later `Write` — such
+      that received-so-far ++ still-owed = owed-before ++ `acc` (SAFETY, no assumption); and UNDER `DeliveryGoroutineRuns`
+      the sink ends up having received exactly owed-before ++ `acc`, with nothing left in the channel (EVENTUALLY). -/
+theorem fanout_mixed_sinks_each_record_whole_once (σ : Store) (ss : ML.Sinks) (m : ML.Handler) (r : Record) (k : Nat) :
+    ((ML.getSink ss k).buf = none →
+      ML.writesAt k (ML.handleTL σ ss m r) = ML.linesFor σ r k m.children ∧
+      ML.getSink (ML.handleTL σ ss m r).sinks k = ML.getSink ss k) ∧
+    (∀ b, (ML.getSink ss k).buf = some b →
+      ML.retsAt k (ML.handleTL σ ss m r) = (ML.linesFor σ r k m.children).map (fun _ => Ret.nil) ∧
+      ∃ acc b', acc.Sublist (ML.linesFor σ r k m.children) ∧
+        (ML.getSink (ML.handleTL σ ss m r).sinks k).buf = some b' ∧
+        ML.writesAt k (ML.handleTL σ ss m r) ++ (b'.inflight.toList ++ b'.queue) = ML.owed (ML.getSink ss k) ++ acc ∧
+        (∀ written rest, DeliveryGoroutineRuns b' written rest →
+          ML.writesAt k (ML.handleTL σ ss m r) ++ written = ML.owed (ML.getSink ss k) ++ acc ∧
+          rest.inflight = none ∧ rest.queue = [])) := by
+  obtain ⟨h1, h2, h3⟩ := fanout_any_sinks_per_sink σ ss m r k
+  refine ⟨fun hn => ?_, fun b hb => ?_⟩
+  · obtain ⟨i1, i2, _⟩ := ML.seqDeliver_sync k (ML.linesFor σ r k m.children) (ML.getSink ss k) hn
+    exact ⟨by rw [h2, i2], by rw [h1, i1]⟩
+  · obtain ⟨j1, acc, hsub, j3⟩ := ML.seqDeliver_buffered k (ML.linesFor σ r k m.children) (ML.getSink ss k) b hb
+    obtain ⟨b', hb'⟩ := ML.seqDeliver_buffered' k (ML.linesFor σ r k m.children) (ML.getSink ss k) b hb
+    have hfin : (ML.getSink (ML.handleTL σ ss m r).sinks k).buf = some b' := by rw [h1]; exact hb'
+    have howed : ML.owed (ML.getSink (ML.handleTL σ ss m r).sinks k) = b'.inflight.toList ++ b'.queue := by
+      simp [ML.owed, hfin]
+    have hsafe : ML.writesAt k (ML.handleTL σ ss m r) ++ (b'.inflight.toList ++ b'.queue) =
+        ML.owed (ML.getSink ss k) ++ acc := by
+      rw [← howed, h1, h2]; exact j3
+    refine ⟨by rw [h3, j1], acc, b', hsub, hfin, hsafe, fun written rest hrun => ?_⟩
+    obtain ⟨s1, s2, s3⟩ := ML.settle_all b'
+    unfold DeliveryGoroutineRuns at hrun
+    rw [hrun] at s1 s2 s3
+    exact ⟨by rw [show written = _ from s1]; exact hsafe, s2, s3⟩
+
+/-- non-vacuity of the hypothesis and of both halves: sink 1 synchronous, sink 7 buffered with depth 1 and stalled with one
+    item in flight; children on 1, 7, 7: sink 1 has the record at once; sink 7 queues the first and drops the second; when
+    its delivery goroutine runs, it receives the old item and the record once — and `DeliveryGoroutineRuns` holds of that -/
+example :
+    let mk (k : Nat) : TL.Handler := { level := 0, names := [], sink := k, list := { arr := 0, len := 0 } }
+    let ss : ML.Sinks := [(7, { buf := some { cap := 1, inflight := some [1] }, held := true })]
+    let f := ML.handleTL {} ss { children := [mk 1, mk 7, mk 7] } { level := 0, ts := [64], msg := [109], attrs := [] }
+    ML.writesAt 1 f = [[73, 78, 70, 64, 109, 10]] ∧ ML.writesAt 7 f = [] ∧
+    (ML.getSink f.sinks 7).buf.map (fun b => (b.inflight, b.queue)) = some (some [1], [[73, 78, 70, 64, 109, 10]]) ∧
+    (TL.Buf.settle 2 { cap := 1, inflight := some [1], queue := [[73, 78, 70, 64, 109, 10]] }).2 =
+      [[1], [73, 78, 70, 64, 109, 10]] := by
+  decide
+
+example : ∃ rest, DeliveryGoroutineRuns { cap := 1, inflight := some [1], queue := [[73, 78, 70, 64, 109, 10]] }
+    [[1], [73, 78, 70, 64, 109, 10]] rest := ⟨_, rfl⟩
 
 /-- non-vacuity: two children on ONE buffered sink of depth 1 whose `Write` is stalled with one item in flight: the
     first child's record is queued, the second child's meets a full channel and is dropped; both deliveries return nil -/
